@@ -36,10 +36,31 @@ type PairOpts struct {
 
 // Pair is a connected client/server session pair.
 type Pair struct {
-	CS     *mcp.ClientSession
+	// Release frees resources that the SDK cannot (the goroutine parked in a
+	// stream Read that ignores Close); call it when the scenario is over.
+	Release func()
+	CS      *mcp.ClientSession
 	SS     *mcp.ServerSession // nil for stateless HTTP
 	InProc *InProc
 	H      http.Handler
+}
+
+type stubbornReader struct{ r *bufPipe }
+
+func (s stubbornReader) Read(p []byte) (int, error) { return s.r.Read(p) }
+
+type bufPipeWriter struct{ p *bufPipe }
+
+func (w bufPipeWriter) Write(b []byte) (int, error) { return w.p.Write(b) }
+func (w bufPipeWriter) Close() error               { w.p.CloseWrite(nil); return nil }
+func (s stubbornReader) Close() error               { return nil } // like os.Stdin: Close does not interrupt Read
+
+type failCloseWriter struct{ w *io.PipeWriter }
+
+func (f failCloseWriter) Write(p []byte) (int, error) { return f.w.Write(p) }
+func (f failCloseWriter) Close() error {
+	f.w.Close()
+	return fmt.Errorf("verif: close of the output stream reported an error")
 }
 
 type wrapTransport struct {
@@ -70,10 +91,19 @@ func Connect(ctx context.Context, o PairOpts) (*Pair, error) {
 		copts = &mcp.ClientSessionOptions{ProtocolVersion: o.ClientVersion}
 	}
 	switch o.Kind {
-	case "mem", "pipe":
+	case "mem", "pipe", "pipe-stubborn":
 		var st, ct mcp.Transport
 		if o.Kind == "mem" {
 			st, ct = mcp.NewInMemoryTransports()
+		} else if o.Kind == "pipe-stubborn" {
+			// The server talks over streams that behave like a process's stdin/stdout:
+			// closing the reader does not unblock a pending Read, and closing the writer
+			// reports an error. The Connection built on them must still honour Close.
+			cr, sw := io.Pipe()
+			in := newBufPipe() // buffered like an OS pipe: the peer's writes do not depend on this reader
+			st = &mcp.IOTransport{Reader: stubbornReader{in}, Writer: failCloseWriter{sw}}
+			ct = &mcp.IOTransport{Reader: cr, Writer: bufPipeWriter{in}}
+			p.Release = func() { in.CloseRead(nil) }
 		} else {
 			cr, sw := io.Pipe()
 			sr, cw := io.Pipe()
